@@ -535,7 +535,13 @@ class ClientWorldObjectManager:
                 cached_obj = normalize_object_update_compressed_data(cached_obj_data)
                 cached_obj["UpdateFlags"] = update_flags
                 cached_obj["RegionHandle"] = handle
-                self._track_new_object(region_state, Object(**cached_obj), msg)
+                # Same as for the other kinds of ObjectUpdate, if we already know about an object
+                # with this FullID then this is an update (or a move to this region), not a new object.
+                obj = self.lookup_fullid(cached_obj["FullID"])
+                if obj:
+                    self._update_existing_object(obj, cached_obj, ObjectUpdateType.UPDATE, msg)
+                else:
+                    self._track_new_object(region_state, Object(**cached_obj), msg)
                 continue
 
             # Don't know about it and wasn't cached.
